@@ -50,7 +50,7 @@ rc, out = sh('go build ./... ', dp)
 res['builds'] = rc == 0
 rc, out = sh('go test -vet=off -count=1 ./... 2>&1 | grep -v "^ok" | grep -v "no test files"', dp)
 fails = [l for l in out.splitlines() if l.startswith('FAIL') or l.startswith('--- FAIL')]
-fails = [l for l in fails if 'TestWaitForInterrupt' not in l]
+fails = [l for l in fails if 'TestWaitForInterrupt' not in l and l.strip() != 'FAIL']
 res['existing_tests_pass'] = len([l for l in fails if l.startswith('--- FAIL')]) == 0 and not any(l.startswith('FAIL') and 'osutil' not in l for l in fails)
 res['existing_tests_output'] = out[-600:]
 cmd = place_demo(dp)
